@@ -4,8 +4,6 @@ import ObiVerif.Lemmas.FpBasic
 -/
 namespace ObiVerif.Fp
 
-theorem W_pos' : 0 < W := by decide
-
 /-- value of a little-endian limb list in base `B` -/
 def lval (B : Nat) : List Nat → Nat
   | [] => 0
@@ -132,7 +130,7 @@ theorem U256.mulOuter_spec (b : List Nat) (hb : AllLt b) (hb4 : b.length = 4) :
     have hai : ai < W := has ai (by simp)
     have has' : AllLt as := fun x hx => has x (by simp [hx])
     simp only [List.length_cons] at hlen
-    have hi := U256.mulInner_spec ai i hai b 0 r 0 hb hr W_pos' (by rw [hb4]; omega)
+    have hi := U256.mulInner_spec ai i hai b 0 r 0 hb hr W_pos (by rw [hb4]; omega)
     generalize U256.mulInner ai i b 0 r 0 = rc at *
     obtain ⟨r1, c⟩ := rc
     simp only [Nat.add_zero, hb4, Nat.zero_mul] at hi
@@ -169,7 +167,7 @@ theorem U256.mul_spec (u v : U256) (hu : u.WF) (hv : v.WF) :
   have ha : AllLt [u.w0, u.w1, u.w2, u.w3] := by
     intro x hx; simp at hx; rcases hx with h | h | h | h <;> rw [h] <;> assumption
   have hr : AllLt [0, 0, 0, 0, 0, 0, 0, 0] := by
-    intro x hx; simp at hx; rw [hx]; exact W_pos'
+    intro x hx; simp at hx; rw [hx]; exact W_pos
   have sp := U256.mulOuter_spec [v.w0, v.w1, v.w2, v.w3] hb rfl [u.w0, u.w1, u.w2, u.w3] 0
     [0, 0, 0, 0, 0, 0, 0, 0] ha hr (by simp) (by
       intro k _
